@@ -1,10 +1,13 @@
 /* LD_PRELOAD fault injector: kills the calling redo process (or its whole process group) immediately
- * before the N-th state-changing libc call made by any redo process of the run.
+ * before the N-th state-changing libc call made by any redo process of the run, or makes that call fail.
  *   CRASH_CTR   file holding the global call counter (flock'ed)
  *   CRASH_LOG   optional: append "n pid argv0 op path [path2]" per point
  *   CRASH_AT    optional: point number at which to kill
  *   CRASH_MODE  self (default) | group
  *   CRASH_ROOT  only paths under this directory count
+ *   FAULT_AT    optional: point number at which the call fails instead (the process lives on)
+ *   FAULT_ERRNO errno of the failing call (number; default ENOSPC); "short" = a write that transfers only half of its bytes
+ *   FAULT_MODE  once (default) | from (every counted call from FAULT_AT on fails: the disk stays full)
  */
 #define _GNU_SOURCE
 #include <dlfcn.h>
@@ -42,15 +45,16 @@ static const char *absolutize(const char *p, char *buf, size_t n) {
     return buf;
 }
 
-static void point(const char *op, const char *a, const char *b) {
-    if (busy || !is_redo()) return;
+/* returns 0: go on; >0: fail the call with that errno; -1: short write */
+static int point(const char *op, const char *a, const char *b) {
+    if (busy || !is_redo()) return 0;
     const char *cp = getenv("CRASH_CTR");
-    if (!cp) return;
+    if (!cp) return 0;
     char ba[4096], bb[4096];
     const char *pa = absolutize(a, ba, sizeof ba);
     const char *pb = b ? absolutize(b, bb, sizeof bb) : 0;
     const char *root = getenv("CRASH_ROOT");
-    if (root && strncmp(pa, root, strlen(root)) != 0 && !(pb && strncmp(pb, root, strlen(root)) == 0)) return;
+    if (root && strncmp(pa, root, strlen(root)) != 0 && !(pb && strncmp(pb, root, strlen(root)) == 0)) return 0;
     busy = 1;
     resolve();
     long n = 0;
@@ -82,66 +86,92 @@ static void point(const char *op, const char *a, const char *b) {
         else kill(getpid(), SIGKILL);
         for (;;) pause();
     }
+    int act = 0;
+    const char *fa = getenv("FAULT_AT");
+    if (fa) {
+        const char *fm = getenv("FAULT_MODE");
+        long f = atol(fa);
+        /* a disk that stays full (mode from) keeps refusing calls that need space; removing and renaming still work */
+        int needs_space = strcmp(op, "unlink") != 0 && strcmp(op, "rename") != 0;
+        if (n == f || (fm && !strcmp(fm, "from") && n > f && needs_space)) {
+            const char *fe = getenv("FAULT_ERRNO");
+            if (fe && !strcmp(fe, "short")) act = -1;
+            else act = fe ? atoi(fe) : ENOSPC;
+            if (act == 0) act = ENOSPC;
+        }
+    }
     busy = 0;
+    return act;
 }
 
-static void fdpoint(const char *op, int fd) {
-    if (busy || !is_redo()) return;
+static int fdpoint(const char *op, int fd) {
+    if (busy || !is_redo()) return 0;
     struct stat st;
-    if (fstat(fd, &st) != 0 || !S_ISREG(st.st_mode)) return;
+    if (fstat(fd, &st) != 0 || !S_ISREG(st.st_mode)) return 0;
     char p[64], t[4096];
     snprintf(p, sizeof p, "/proc/self/fd/%d", fd);
     ssize_t l = readlink(p, t, sizeof t - 1);
-    if (l <= 0) return;
+    if (l <= 0) return 0;
     t[l] = 0;
-    point(op, t, 0);
+    return point(op, t, 0);
 }
 
 int rename(const char *a, const char *b) {
     static int (*real)(const char *, const char *);
     if (!real) real = dlsym(RTLD_NEXT, "rename");
-    point("rename", a, b);
+    int f = point("rename", a, b);
+    if (f > 0) { errno = f; return -1; }
     return real(a, b);
 }
 int unlink(const char *a) {
     static int (*real)(const char *);
     if (!real) real = dlsym(RTLD_NEXT, "unlink");
-    point("unlink", a, 0);
+    int f = point("unlink", a, 0);
+    if (f > 0) { errno = f; return -1; }
     return real(a);
 }
 int mkdir(const char *a, mode_t m) {
     static int (*real)(const char *, mode_t);
     if (!real) real = dlsym(RTLD_NEXT, "mkdir");
-    point("mkdir", a, 0);
+    int f = point("mkdir", a, 0);
+    if (f > 0) { errno = f; return -1; }
     return real(a, m);
 }
 int ftruncate(int fd, off_t l) {
     static int (*real)(int, off_t);
     if (!real) real = dlsym(RTLD_NEXT, "ftruncate");
-    fdpoint("ftruncate", fd);
+    int f = fdpoint("ftruncate", fd);
+    if (f > 0) { errno = f; return -1; }
     return real(fd, l);
 }
 int ftruncate64(int fd, off64_t l) {
     static int (*real)(int, off64_t);
     if (!real) real = dlsym(RTLD_NEXT, "ftruncate64");
-    fdpoint("ftruncate", fd);
+    int f = fdpoint("ftruncate", fd);
+    if (f > 0) { errno = f; return -1; }
     return real(fd, l);
 }
 ssize_t write(int fd, const void *b, size_t n) {
     resolve();
-    fdpoint("write", fd);
+    int f = fdpoint("write", fd);
+    if (f > 0) { errno = f; return -1; }
+    if (f < 0 && n > 1) n = n / 2;
     return real_write(fd, b, n);
 }
 ssize_t pwrite(int fd, const void *b, size_t n, off_t o) {
     static ssize_t (*real)(int, const void *, size_t, off_t);
     if (!real) real = dlsym(RTLD_NEXT, "pwrite");
-    fdpoint("write", fd);
+    int f = fdpoint("write", fd);
+    if (f > 0) { errno = f; return -1; }
+    if (f < 0 && n > 1) n = n / 2;
     return real(fd, b, n, o);
 }
 ssize_t pwrite64(int fd, const void *b, size_t n, off64_t o) {
     static ssize_t (*real)(int, const void *, size_t, off64_t);
     if (!real) real = dlsym(RTLD_NEXT, "pwrite64");
-    fdpoint("write", fd);
+    int f = fdpoint("write", fd);
+    if (f > 0) { errno = f; return -1; }
+    if (f < 0 && n > 1) n = n / 2;
     return real(fd, b, n, o);
 }
 static int creating(int flags) { return (flags & (O_CREAT | O_TRUNC)) != 0; }
@@ -149,7 +179,7 @@ int open(const char *p, int flags, ...) {
     resolve();
     mode_t m = 0;
     if (flags & (O_CREAT | O_TMPFILE)) { va_list ap; va_start(ap, flags); m = va_arg(ap, mode_t); va_end(ap); }
-    if (creating(flags)) point("create", p, 0);
+    if (creating(flags)) { int f = point("create", p, 0); if (f > 0) { errno = f; return -1; } }
     return real_open(p, flags, m);
 }
 int open64(const char *p, int flags, ...) {
@@ -157,7 +187,7 @@ int open64(const char *p, int flags, ...) {
     if (!real) real = dlsym(RTLD_NEXT, "open64");
     mode_t m = 0;
     if (flags & (O_CREAT | O_TMPFILE)) { va_list ap; va_start(ap, flags); m = va_arg(ap, mode_t); va_end(ap); }
-    if (creating(flags)) point("create", p, 0);
+    if (creating(flags)) { int f = point("create", p, 0); if (f > 0) { errno = f; return -1; } }
     return real(p, flags, m);
 }
 int openat(int d, const char *p, int flags, ...) {
@@ -165,7 +195,7 @@ int openat(int d, const char *p, int flags, ...) {
     if (!real) real = dlsym(RTLD_NEXT, "openat");
     mode_t m = 0;
     if (flags & (O_CREAT | O_TMPFILE)) { va_list ap; va_start(ap, flags); m = va_arg(ap, mode_t); va_end(ap); }
-    if (creating(flags) && (d == AT_FDCWD || (p && p[0] == '/'))) point("create", p, 0);
+    if (creating(flags) && (d == AT_FDCWD || (p && p[0] == '/'))) { int f = point("create", p, 0); if (f > 0) { errno = f; return -1; } }
     return real(d, p, flags, m);
 }
 int openat64(int d, const char *p, int flags, ...) {
@@ -173,6 +203,6 @@ int openat64(int d, const char *p, int flags, ...) {
     if (!real) real = dlsym(RTLD_NEXT, "openat64");
     mode_t m = 0;
     if (flags & (O_CREAT | O_TMPFILE)) { va_list ap; va_start(ap, flags); m = va_arg(ap, mode_t); va_end(ap); }
-    if (creating(flags) && (d == AT_FDCWD || (p && p[0] == '/'))) point("create", p, 0);
+    if (creating(flags) && (d == AT_FDCWD || (p && p[0] == '/'))) { int f = point("create", p, 0); if (f > 0) { errno = f; return -1; } }
     return real(d, p, flags, m);
 }
